@@ -218,6 +218,16 @@ class DocGen:
             form = rng.choice(
                 ["{ lib }:\n", "{ lib, stdenv }:\n", "x:\n", "{ lib, ... }@args:\n", "args@{ lib, ... }:\n", "{ lib, o ? 1 }:\n"]
             )
+            if rng.random() < 0.15:
+                # simple-parameter lambdas whose body set opens on the colon's line (overlay style)
+                form = rng.choice(["x: ", "final: prev: ", "self: super: "])
+                rec = cfg["rec"] and rng.random() < 0.3
+                text = "".join(head) + form + self.set_text(0, rec=rec)
+                if cfg["footer"]:
+                    text += rng.choice(["\n", " "]) + self.comment("end")
+                if cfg["final_newline"]:
+                    text += "\n"
+                return text
             head.append(form)
             if rng.random() < 0.3:
                 head.append("\n")
@@ -367,7 +377,7 @@ class OpGen:
         self.n += 1
         if self.cfg.get("multiline_boost") and self.rng.random() < 0.3:
             b = self.tag * 1000 + self.n
-            return self.rng.choice(["[\n  %d\n  %d\n]", "{\n  k = %d;\n  j = %d;\n}"]) % (b, b + 1)
+            return self.rng.choice(["[\n  %d\n  %d\n]", "{\n  k = %d;\n  j = %d;\n}", "\"a%d\nb%d\""]) % (b, b + 1)
         base = self.tag * 1000 + self.n
         r = self.rng.random()
         if not self.cfg.get("rich_values") or r < 0.55:
@@ -386,7 +396,8 @@ class OpGen:
             return '"w${toString %d}"' % base
         if r < 0.99:
             # multi-line values (canonical spelling at indent 0)
-            return self.rng.choice(["[\n  %d\n  %d\n]", "{\n  k = %d;\n  j = %d;\n}", "''\n  foo %d\n  bar %d\n''"]) % (base, base + 1)
+            # (the last one: a plain string literal with a raw line break inside)
+            return self.rng.choice(["[\n  %d\n  %d\n]", "{\n  k = %d;\n  j = %d;\n}", "''\n  foo %d\n  bar %d\n''", "\"a%d\nb%d\""]) % (base, base + 1)
         return "./v%d" % base
 
     def _scenario(self, depth: int, existing) -> list:
